@@ -42,30 +42,18 @@ def run_case(case):
                       check_timeout_ms=opts.get("check_timeout_ms", 60000),
                       max_paths=opts.get("max_paths", 200000))
         cx.trig_mode = opts.get("trig_mode", "float")
-        validate = opts.get("validate", 2)
-        vstate = dict(left=validate, done=0, mismatch=[])
+        cx.validate_left = opts.get("validate", 2)
+        pending = []
 
         def wrapped(c):
             fn(c, **kwargs)
-            if vstate["left"] > 0 and c.observed:
-                vstate["left"] -= 1
-                m = c.path_model()
-                if m is not None:
-                    import z3
-                    md = {}
-                    for nm, s in c.inputs.items():
-                        md[nm] = core.eval_model(m, s)
-                        if isinstance(s, core.SR) and s.n is not None:
-                            md[nm + "__nan"] = bool(z3.is_true(m.eval(s.n, model_completion=True)))
-                    for d in m.decls():
-                        if d.arity() == 0 and d.name() not in md and "!" not in d.name():
-                            md[d.name()] = core._py(m[d])
-                    exp = {k: _evalobs(m, v) for k, v in c.observed.items()}
-                    vstate.setdefault("pending", []).append((md, exp))
+            if c._obs_model is not None and c.observed:
+                c.validate_left -= 1
+                pending.append((c._obs_model[1], dict(c.observed)))
 
         res = cx.explore(wrapped, name)
         # encoding validation: concrete float run of the same harness on path witnesses
-        for md, exp in vstate.get("pending", []):
+        for md, exp in pending:
             cc = core.Ctx(mode="conc", model=md)
             core._CTX = cc
             try:
@@ -260,9 +248,9 @@ def main(argv=None):
     by_label = {}
     for r in results:
         for lab, d in r["by_label"].items():
-            b = by_label.setdefault(lab, dict(n=0, ok=0, sat=0, unknown=0))
+            b = by_label.setdefault(lab, dict(n=0, ok=0, sat=0, unknown=0, t=0.0))
             for k in b:
-                b[k] += d[k]
+                b[k] = round(b[k] + d.get(k, 0), 3)
     samples = []
     for r in results:
         for s in r["samples"][:2]:
